@@ -69,10 +69,14 @@ class Tr:
         self.depth = 0
         self.helper_ret = None
         self.inplace = set()  # caller variables overwritten in place by conditional rebindings inside a helper
+        self.poisoned = set()  # ... that the caller did NOT re-bind from the helper's results: any later use fails closed
 
     def r(self, name):
         """canonical variable a local name stands for"""
-        return self.alias.get(name, name)
+        c = self.alias.get(name, name)
+        if c in self.poisoned and not self.prefix:
+            raise Fail(f"{name}: conditionally rebound inside a helper and used by the caller afterwards without being re-bound")
+        return c
 
     def bindname(self, name, guards=()):
         """a (re)binding of a local name: the name itself at top level; inside an inlined helper a fresh canonical variable,
@@ -204,8 +208,8 @@ class Tr:
                     return
                 if f == "SC_apply":
                     args = [self.r(_name(a)) for a in val.args[:3]]
-                    if guards or self.prefix:
-                        raise Fail("SC_apply under a guard / inside a helper")
+                    if guards:
+                        raise Fail("SC_apply under a guard")
                     lab = self.bindname(_name(tgt))
                     as_ = ", ".join(f'"{a}"' for a in args)
                     self.stmts.append((g, f'Stmt.bind "{lab}" [{as_}]'))
@@ -319,11 +323,15 @@ class Tr:
             raise Fail(f"helper {h.name}: {len(ret)} values returned, {len(tnames)} targets")
         # a caller variable the helper overwrote in place (conditional rebinding of a parameter) must be re-bound by the
         # caller from the helper's results: otherwise the in-place model would misrepresent Python's call-by-object
-        rebound = {self.r(t) for t in tnames}
-        if not inplace <= rebound:
-            raise Fail(f"helper {h.name}: conditionally rebinds parameters {sorted(inplace - rebound)} that the caller keeps using")
+        # ... if the caller does not, its (unchanged) object differs from the model's variable from here on: the variable is
+        # poisoned -- harmless as long as the caller never reads it again, a translation failure as soon as it does
         for t, c in zip(tnames, ret):
             self.alias[t] = c  # the caller's name now stands for the helper's variable (no statement needed)
+        rebound = {self.alias.get(t, t) for t in tnames}
+        if self.depth == 0:
+            self.poisoned |= (inplace - rebound)
+        elif not inplace <= rebound:
+            raise Fail(f"helper {h.name}: conditionally rebinds parameters {sorted(inplace - rebound)} that the caller keeps using")
 
 
 def find_run(trees, mod, cls):
@@ -363,13 +371,28 @@ def translate(repo):
     for mod, cls in CLASSES:
         fn, owner = find_run(trees, mod, cls)
         t = Tr()
+        classes = {n_.name: n_ for n_ in trees[mod].body if isinstance(n_, ast.ClassDef)}
+
+        def mro(cname, seen=()):
+            """base classes defined in this module first, the class itself last (so that overriding methods win)"""
+            node = classes.get(cname)
+            if node is None or cname in seen:
+                return []
+            out_ = []
+            for b in node.bases:
+                if isinstance(b, ast.Subscript):
+                    b = b.value
+                if isinstance(b, ast.Name):
+                    out_ += mro(b.id, seen + (cname,))
+            return out_ + [node]
+
         for n_ in trees[mod].body:
             if isinstance(n_, ast.FunctionDef):
                 t.helpers[n_.name] = n_
-            if isinstance(n_, ast.ClassDef) and n_.name == owner:
-                for m_ in n_.body:
-                    if isinstance(m_, ast.FunctionDef) and m_.name != "run":
-                        t.helpers["self." + m_.name] = m_
+        for n_ in mro(cls):
+            for m_ in n_.body:
+                if isinstance(m_, ast.FunctionDef) and m_.name != "run":
+                    t.helpers["self." + m_.name] = m_
         t.body(fn.body, [])
         if not t.pole_seen or t.ret is None or t.lab is None:
             raise Fail(f"{cls}: pole computation / return / SC_apply not found")
